@@ -104,6 +104,7 @@ Definition set_pc (x : act) p := {| apc := p; aop := aop x; ab := ab x; aw := aw
 Definition set_pcx (x : act) p c f := {| apc := p; aop := aop x; ab := ab x; aw := aw x; actx := c; afor := f |}.
 Definition fresh (o : nat) := {| tok := false; unp := false; rel := false; owner := o; ag := 0 |}.
 
+Definition isRPark (c : ctx) : bool := match c with RPark => true | _ => false end.
 Definition fail_pc (o : op) : pc := match o with OTryWrite => Idle | OTryRead => RUi | _ => L1 end.
 Definition got_pc (o : op) : pc := if is_read o then RG else GW.
 Definition exit_pc (o : op) : pc := if is_read o then RUx else Exit.
